@@ -59,6 +59,50 @@ def _dotted(node):
     return None
 
 
+def _const_kind(e, bound=None):
+    """'str' / 'int' / None: what the hash of expression e certainly depends on.  str / bytes constants (and containers of them) hash with the per-process salt; int / bool / None
+    constants (and tuples of them) hash identically in every process.  Names are resolved through `bound` (loop / comprehension targets over literal sequences)."""
+    if isinstance(e, ast.Constant):
+        return "str" if isinstance(e.value, (str, bytes)) else ("int" if isinstance(e.value, (int, bool, type(None))) else None)
+    if isinstance(e, ast.JoinedStr):
+        return "str"
+    if isinstance(e, (ast.Tuple, ast.List, ast.Set)) and e.elts:
+        kinds = {_const_kind(x, bound) for x in e.elts}
+        return "str" if "str" in kinds else ("int" if kinds == {"int"} else None)
+    if isinstance(e, ast.Name) and bound and e.id in bound:
+        return bound[e.id]
+    if isinstance(e, ast.BinOp):
+        kinds = {_const_kind(e.left, bound), _const_kind(e.right, bound)}
+        return "str" if "str" in kinds else ("int" if kinds == {"int"} else None)
+    return None
+
+
+def _loop_bindings(fnode):
+    """names bound by `for x in <literal sequence>` / comprehension generators over literal sequences, with the kind of the elements"""
+    out = {}
+    for n in ast.walk(fnode):
+        gens = n.generators if isinstance(n, (ast.ListComp, ast.SetComp, ast.DictComp, ast.GeneratorExp)) else ([n] if isinstance(n, ast.For) else [])
+        for g in gens:
+            if isinstance(g.target, ast.Name) and isinstance(g.iter, (ast.Tuple, ast.List, ast.Set)):
+                k = _const_kind(g.iter)
+                if k:
+                    out[g.target.id] = k
+    return out
+
+
+def _set_elem_kind(e, setdefs, bound):
+    if isinstance(e, ast.Name) and e.id in setdefs:
+        e = setdefs[e.id]
+    if isinstance(e, ast.Set):
+        return _const_kind(e, bound)
+    if isinstance(e, ast.Call) and e.args:
+        return _const_kind(e.args[0], bound)
+    return None
+
+
+SOFT = "[needs a native witness] "
+
+
 def python_state_offenders():
     """AST scan of the lerax sources for process-level state: returns (offenders, number of files, number of functions)"""
     MUT = {"append", "extend", "insert", "pop", "remove", "clear", "update", "setdefault", "add", "discard", "popitem", "sort", "reverse", "__setitem__"}
@@ -110,10 +154,12 @@ def python_state_offenders():
                             offenders.append(f"{path}:{n.lineno} mutates its mutable default argument `{p.arg}` (shared across calls)")
                             break
                 # iteration over a set: the order of a set of strings is salted per process (PYTHONHASHSEED) - a hidden input of everything derived from that order
-                setnames = set()
+                setnames, setdefs = set(), {}
+                bound = _loop_bindings(fnode)
                 for n in ast.walk(fnode):
                     if isinstance(n, ast.Assign) and len(n.targets) == 1 and isinstance(n.targets[0], ast.Name) and _is_set_expr(n.value):
                         setnames.add(n.targets[0].id)
+                        setdefs[n.targets[0].id] = n.value
                 is_set = lambda e: _is_set_expr(e) or (isinstance(e, ast.Name) and e.id in setnames)
                 for n in ast.walk(fnode):
                     iters = []
@@ -126,7 +172,10 @@ def python_state_offenders():
                         iters.append(n.value)
                     for it in iters:
                         if is_set(it):
-                            offenders.append(f"{path}:{getattr(n, 'lineno', 0)} iterates over a set (order depends on the per-process hash salt): {ast.unparse(it)[:60]}")
+                            kind = _set_elem_kind(it, setdefs, bound)
+                            if kind == "int":
+                                continue        # integers hash to themselves: the order is the same in every process
+                            offenders.append(("" if kind == "str" else SOFT) + f"{path}:{getattr(n, 'lineno', 0)} iterates over a set (order depends on the per-process hash salt): {ast.unparse(it)[:60]}")
                 # values that differ from one interpreter process to the next: builtin hash() (salted for str/bytes, address-based for objects; `__hash__`/`__eq__` bodies implement
                 # the protocol and are exempt), id(), the process id, wall-clock time, OS entropy, the process-global `random` / `numpy.random` generators
                 if not (isinstance(fnode, ast.FunctionDef) and fnode.name in ("__hash__", "__eq__")):
@@ -134,11 +183,16 @@ def python_state_offenders():
                         if not isinstance(n, ast.Call):
                             continue
                         d = _dotted(n.func) or ""
-                        if d in ("hash", "id"):
-                            offenders.append(f"{path}:{n.lineno} uses builtin {d}() (differs between interpreter processes: per-process hash salt / object addresses): {ast.unparse(n)[:60]}")
+                        if d == "id":
+                            offenders.append(f"{path}:{n.lineno} uses builtin id() (object addresses differ between interpreter processes): {ast.unparse(n)[:60]}")
+                        elif d == "hash":
+                            kind = _const_kind(n.args[0], _loop_bindings(fnode)) if n.args else None
+                            if kind == "int":
+                                continue        # hash of integers / tuples of integers is the same in every process
+                            offenders.append(("" if kind == "str" else SOFT) + f"{path}:{n.lineno} uses builtin hash() (salted per interpreter process for str / bytes, address-based for plain objects): {ast.unparse(n)[:60]}")
                         elif d in ("os.getpid", "os.urandom", "time.time", "time.time_ns", "time.perf_counter", "time.monotonic", "uuid.uuid1", "uuid.uuid4") or d.startswith(("secrets.", "np.random.", "numpy.random.", "random.")):
-                            if "/callback/logging" in path and d.startswith("time."):
-                                continue
+                            if "/callback/" in path and d.startswith("time."):
+                                continue        # observers may read the clock (rates, progress bars): that observers do not change training is the with/without-observer obligations
                             offenders.append(f"{path}:{n.lineno} reads a process-dependent value ({d}): a hidden input")
                 for n in ast.walk(fnode):
                     if isinstance(n, ast.Global):
@@ -167,8 +221,8 @@ def python_state_offenders():
 
 
 def native_process_replay(model):
-    """R1: two fresh interpreters with different string-hash salts (PYTHONHASHSEED=1 / 2 - what separately launched python processes get by default) run reset and one iteration of
-    every algorithm from the same key and print a digest of every array in the resulting state; the digests must agree."""
+    """R1: three fresh interpreters with different string-hash salts (PYTHONHASHSEED=1 / 2 / 3 - what separately launched python processes get by default) run reset, one iteration and
+    a short learn of PPO, DQN and SAC from the same keys and print a digest of every array in the result; the digests must agree."""
     import subprocess
     import sys
     prog = r"""
@@ -205,24 +259,25 @@ for name, algo, env, pol in (
         out[name + ".reset"] = digest(st)
         st = algo.iteration(st, key=jr.key(2), callback=cb)
         out[name + ".iteration"] = digest(st)
+        out[name + ".learn"] = digest(algo.learn(env, pol, total_timesteps=8, key=jr.key(3)))
     except Exception as e:
         out[name + ".error"] = type(e).__name__ + ": " + str(e)[:100]
 print("DIGEST " + json.dumps(out, sort_keys=True))
 """
     outs = []
-    procs = [subprocess.Popen([sys.executable, "-c", prog], stdout=subprocess.PIPE, stderr=subprocess.PIPE, text=True, env=dict(os.environ, JAX_PLATFORMS="cpu", PYTHONHASHSEED=s)) for s in ("1", "2")]
+    procs = [subprocess.Popen([sys.executable, "-c", prog], stdout=subprocess.PIPE, stderr=subprocess.PIPE, text=True, env=dict(os.environ, JAX_PLATFORMS="cpu", PYTHONHASHSEED=s)) for s in ("1", "2", "3")]
     for p in procs:
         so, se = p.communicate(timeout=900)
         line = [l for l in so.splitlines() if l.startswith("DIGEST ")]
         if not line:
             return dict(reproduced=False, note="fresh interpreter failed: " + se[-300:])
         outs.append(json.loads(line[-1][7:]))
-    diff = {k_: [outs[0].get(k_), outs[1].get(k_)] for k_ in sorted(set(outs[0]) | set(outs[1])) if outs[0].get(k_) != outs[1].get(k_) and not k_.endswith(".error")}
+    diff = {k_: [o.get(k_) for o in outs] for k_ in sorted(set().union(*outs)) if len({o.get(k_) for o in outs}) > 1 and not k_.endswith(".error")}
     errs = {k_: v for k_, v in outs[0].items() if k_.endswith(".error")}
     if diff:
-        return dict(reproduced=True, route="R1 (two fresh interpreters, PYTHONHASHSEED=1 vs 2, same key / environment / policy / hyper-parameters)", inputs=dict(PYTHONHASHSEED=["1", "2"]),
+        return dict(reproduced=True, route="R1 (three fresh interpreters, PYTHONHASHSEED=1 / 2 / 3, same key / environment / policy / hyper-parameters)", inputs=dict(PYTHONHASHSEED=["1", "2", "3"]),
                     observed=dict(state_digests_that_differ=diff))
-    return dict(reproduced=False, note="state digests after reset and one iteration agree across interpreters with different hash salts", errors=errs or None, digests=outs[0])
+    return dict(reproduced=False, note="digests of the state after reset and one iteration and of the policy returned by learn agree across interpreters with different hash salts", errors=errs or None, digests=outs[0])
 
 
 def native_config_replay(model):
@@ -252,15 +307,25 @@ def unit_frame_ast(S):
     fn = "lerax/** (AST frame check)"
     S.under_contract(fn)
     offenders, nfiles, nfuncs = python_state_offenders()
-    nat = native_config_replay(None) if any("JAX configuration" in o for o in offenders) else None
-    if not (nat and nat.get("reproduced")) and any("interpreter processes" in o or "process-dependent" in o for o in offenders):
+    hard = [o for o in offenders if not o.startswith(SOFT)]
+    soft = [o[len(SOFT):] for o in offenders if o.startswith(SOFT)]
+    nat = native_config_replay(None) if any("JAX configuration" in o for o in hard) else None
+    if not (nat and nat.get("reproduced")) and (soft or any("interpreter process" in o or "process-dependent" in o or "hash salt" in o for o in hard)):
         nat = native_process_replay(None)
-    S.fact("frame/no-writes-to-module-level-state", not offenders and nfiles > 50, function=fn,
-           what=f"none of the {nfuncs} functions in {nfiles} lerax source files (render/export excluded) declares `global`, mutates a module-level mutable container or a mutable default, changes the JAX configuration, derives an order from a set, or reads a per-process value (hash()/id() outside __hash__/__eq__, pid, clock, OS entropy, global RNGs): results cannot depend on what was constructed or run earlier in the process, nor on which process runs them",
-           detail=offenders[:10], replay=lambda m: (nat if (nat and nat.get("reproduced")) else dict(reproduced=bool(offenders), route="static (AST)", observed=offenders[:10])))
+    natr = bool(nat and nat.get("reproduced"))
+    what = (f"none of the {nfuncs} functions in {nfiles} lerax source files (render/export excluded) declares `global`, mutates a module-level mutable container or a mutable default, changes the JAX "
+            "configuration, derives an order from a set of strings, or reads a per-process value (hash() of strings / id() outside __hash__/__eq__, pid, clock, OS entropy, global RNGs): results cannot "
+            "depend on what was constructed or run earlier in the process, nor on which process runs them")
+    if soft and not hard and not natr:
+        # hash() / set order over values whose type the scan cannot see (hash of integers is process-independent): a verdict needs the native witness
+        S.undecided("frame/no-writes-to-module-level-state", "the scan found hash() / set-order uses whose argument types it cannot see, and the two-interpreter replay (different hash salts) "
+                    "shows no difference: " + "; ".join(soft[:4]), function=fn, what=what)
+    else:
+        S.fact("frame/no-writes-to-module-level-state", not hard and not (soft and natr) and nfiles > 50, function=fn, what=what, shape=False,
+               detail=(hard + soft)[:10], replay=lambda m: (nat if natr else dict(reproduced=bool(hard), route="static (AST)", observed=hard[:10])))
     if S.tier == "thorough":
         r = native_process_replay(None)
-        S.bounded_check("process/state-digests-agree-across-hash-salts", not r.get("reproduced") and not r.get("errors") and "digests" in r, bound="PPO, DQN, SAC: reset + one iteration, two fresh interpreters with PYTHONHASHSEED=1 / 2",
+        S.bounded_check("process/state-digests-agree-across-hash-salts", not r.get("reproduced") and not r.get("errors") and "digests" in r, bound="PPO, DQN, SAC: reset + one iteration + learn(total_timesteps=8), three fresh interpreters with PYTHONHASHSEED=1 / 2 / 3",
                         function=fn, what="the state after reset and one iteration is bit-identical in two interpreter processes with different string-hash salts", detail=r, replay=lambda m: r)
     l = AbstractAlgorithm.learn
     S.fact("learn/no-buffer-donation", getattr(l, "donate_first", None) is False and getattr(l, "donate_rest", None) is False, function="lerax.algorithm.base_algorithm:AbstractAlgorithm.learn",
